@@ -324,7 +324,9 @@ def execute(scn):
             sel = np.array(modes) == md
             c.close(f"{tag}:world{w}:{f}[mode {md}]", g.reshape(want.shape)[sel], want[sel], "f32dyn", vkey=vk + f":mode={MODE_NAMES[md]}")
           continue
-        c.close(f"{tag}:world{w}:{f}", g, want, "f32dyn", vkey=vk)
+        # dampratio -> damping goes through the float32 inverse inertia (dof_invweight0) and a square root: measured up to 4e-4
+        # relative on well-conditioned entries (seed 3), so class `solver` (2e-3) instead of f32dyn for this one field
+        c.close(f"{tag}:world{w}:{f}", g, want, "solver" if f == "actuator_biasprm" else "f32dyn", vkey=vk)
     if tag != "set_const_fixed":
       got = m.stat.meaninertia.numpy()
       for w in range(nworld):
